@@ -186,6 +186,15 @@ func init() {
 					"<a rel=\"author\" href=\"http://x.com/\" target=\"_self\">t</a>", "<a rel=\"author\" target=\"_blank\" href=\"http://x.com/\">t</a>", "<a href=\"/r\" rel=\"x\" target=\"_BLANK\">t</a>", "<img src=\"javascript:alert(1)\"><video src=\"vbscript:x\">v</video><link href=\"javascript:x\">", "<area href=\"http://x.com/\"><link href=\"http://x.com/\" crossorigin=\"x\">"} {
 					emit(pid, pol, []byte(d))
 				}
+				// every rel value of the pool (tokens of which a link type is a prefix or a suffix, other
+				// white space, upper case) on a link the options apply to
+				if allowMask&1 != 0 {
+					for ri, rv := range bmx.RelPool {
+						if (ri+opt)%4 == 0 || opt == 31 {
+							emit(pid, pol, []byte("<a href=\"http://x.com/\" rel=\""+rv+"\">t</a><a target=\"_blank\" rel=\""+rv+"\" href=\"/r\">u</a>"))
+						}
+					}
+				}
 			}
 		}
 		// escaping makes tokens grow: very long runs of characters that need escaping, twice
@@ -303,6 +312,31 @@ func init() {
 
 	// C16: injected write failures and reader failures
 	families["fault"] = func(c *ctx) {
+		// calls that end abruptly — the source fails, or a write fails — inside a skip-content element,
+		// a script / style / raw-text element or a dropped element leave nothing behind: the next
+		// ordinary document, under the same and under another policy, comes out as always
+		{
+			ops := []*bmx.Op{{Kind: "AE", Names: []string{"b", "p", "i"}}, {Kind: "AA", Names: []string{"href"}, Scope: "E", ScopeEl: []string{"a"}}}
+			pid, pol := c.policy(ops)
+			upid, upol := c.shipped("@UGC")
+			ops3 := []*bmx.Op{{Kind: "UN", Flag: true}, {Kind: "AE", Names: []string{"b", "p", "script"}}}
+			pid3, pol3 := c.policy(ops3)
+			for _, doc := range []string{"a<object>b<b>c", "x<title>unclosed title", "<a>1<a>2<object>3", "t<frameset><b>u</b>", "s<script>var x = 1;", "y<style>b{color:red", "<iframe>zz<b>",
+				"<noscript>n", "<b><a>dropped<i>", "<textarea>ta", "<svg><title>t"} {
+				for fk := 0; fk < 4; fk++ {
+					for _, pl := range []*bluemonday.Policy{pol, upol, pol3} {
+						pl.SanitizeReaderToWriter(strings.NewReader(doc), &faultWriter{failAt: fk})
+						pl.SanitizeReader(&failingReader{data: []byte(doc), failAt: len(doc) - fk, err: errInjected})
+						pl.SanitizeReader(&failingReader{data: []byte(doc), failAt: len(doc) - fk, withData: true, err: io.ErrUnexpectedEOF})
+					}
+					for _, probe := range []string{"p<b>q</b>r &amp; s", "<p>after &lt;x&gt;</p>t"} {
+						fmt.Fprintf(c.w, "after %d %s %s\n", pid, bmx.HexField([]byte(probe)), safeSanitize(pol, []byte(probe)))
+						fmt.Fprintf(c.w, "after %d %s %s\n", upid, bmx.HexField([]byte(probe)), safeSanitize(upol, []byte(probe)))
+						fmt.Fprintf(c.w, "after %d %s %s\n", pid3, bmx.HexField([]byte(probe)), safeSanitize(pol3, []byte(probe)))
+					}
+				}
+			}
+		}
 		round := 0
 		for i := 0; i < c.n; {
 			ops := bmx.RandPolicyOps(c.r)
